@@ -615,14 +615,94 @@ class Size(SingleAggregation):
         return type(self)(self.frame[by_columns], *ops[1:])
 
 
+def _idx_extreme(df, cols, group, how):
+    # Per group and column ``c``: the extreme value (column ``c``) and the index
+    # label of the first row holding it (column ``(c, "-idx")``). A group without
+    # valid values gets NaN and any of its labels.
+    g = group(df)[cols]
+    val = getattr(g, how)()
+    hit = df.copy(deep=False)
+    # (pandas cannot transform when there is no group at all)
+    hit[cols] = (
+        (df[cols] == g.transform(how)).fillna(False).astype(bool) if len(val) else False
+    )
+    idx = group(hit)[cols].idxmax()
+    return pd.concat([val, idx.rename(columns=lambda c: (c, "-idx"))], axis=1)
+
+
+def _idx_chunk(df, *by, how, columns, skipna=True, numeric_only=False, **kwargs):
+    if is_series_like(df):
+        df = df.to_frame()
+
+    def group(x):
+        return _groupby_raise_unaligned(x, by=by, **kwargs)
+
+    g = group(df) if columns is None else group(df)[_convert_to_list(columns)]
+    cols = list(getattr(g, how)(numeric_only=numeric_only).columns)
+    if not skipna and df[cols].isna().any().any():
+        raise ValueError(f"idx{how} with skipna=False encountered an NA value.")
+    return _idx_extreme(df, cols, group, how)
+
+
+def _idx_agg(
+    df, how, levels, sort, final, name=no_default, numeric_only=None, **kwargs
+):
+    levels = levels if isinstance(levels, list) else [levels]
+    keys = [df.index.get_level_values(level) for level in levels]
+    df = df.reset_index(drop=True)
+    cols = [c for c in df.columns if (c, "-idx") in df.columns]
+    out = _idx_extreme(df, cols, lambda x: x.groupby(keys, sort=sort, **kwargs), how)
+    for c in cols:
+        out[(c, "-idx")] = df[(c, "-idx")].to_numpy()[out[(c, "-idx")].to_numpy()]
+    if not final:
+        return out
+    if out[cols].isna().any().any():
+        raise ValueError(
+            f"idx{how} with skipna=True encountered all NA values in a group."
+        )
+    out = out[[(c, "-idx") for c in cols]].set_axis(cols, axis=1)
+    return out if name is no_default else out.iloc[:, 0].rename(name)
+
+
 class IdxMin(SingleAggregation):
-    groupby_chunk = M.idxmin
-    groupby_aggregate = M.first
+    how = "min"
+
+    @classmethod
+    def chunk(cls, df, *by, **kwargs):
+        return _idx_chunk(df, *by, how=cls.how, **kwargs)
+
+    @classmethod
+    def combine(cls, inputs, **kwargs):
+        return _idx_agg(_concat(inputs), cls.how, final=False, **kwargs)
+
+    @classmethod
+    def aggregate(cls, inputs, **kwargs):
+        return _idx_agg(_concat(inputs), cls.how, final=True, **kwargs)
+
+    @property
+    def chunk_kwargs(self) -> dict:  # type: ignore[override]
+        kwargs = super().chunk_kwargs
+        kwargs.pop("chunk")
+        return kwargs
+
+    @property
+    def combine_kwargs(self) -> dict:  # type: ignore[override]
+        kwargs = super().aggregate_kwargs
+        kwargs.pop("aggfunc")
+        return kwargs
+
+    @property
+    def aggregate_kwargs(self) -> dict:  # type: ignore[override]
+        meta = self.frame._meta
+        if meta.ndim == 1:
+            return {**self.combine_kwargs, "name": meta.name}
+        if self._slice is not None and not isinstance(self._slice, list):
+            return {**self.combine_kwargs, "name": self._slice}
+        return self.combine_kwargs
 
 
 class IdxMax(IdxMin):
-    groupby_chunk = M.idxmax
-    groupby_aggregate = M.first
+    how = "max"
 
 
 class ValueCounts(SingleAggregation):
